@@ -227,6 +227,7 @@ class Gen:
         self.tys = list(params)       # type of every local index
         self.known_rate = known_rate
         self.loop_rate = 0.0
+        self.lvs = []                 # (index, type) of the enclosing loops' variables / counters
 
     def vars_of(self, scope, t):
         return [i for i in scope if self.tys[i] == t]
@@ -343,6 +344,16 @@ class Gen:
 
     def cond(self, depth, scope):
         rng = self.rng
+        if self.lvs and rng.random() < 0.6:
+            # inside a loop: a condition on the loop variable / counter, so that the branches
+            # taken differ from one iteration to the next
+            i, t = rng.choice(self.lvs)
+            v = {"k": "var", "i": i, "ty": t}
+            if rng.random() < 0.7:
+                k = rng.choice([2, 3, 3, 4])
+                a = {"k": "arith", "op": "%", "a": v, "b": self.small(t, k, k), "ty": t}
+                return {"k": "cmp", "op": "==", "a": a, "b": self.small(t, 0, k - 1), "ty": "u8"}
+            return {"k": "cmp", "op": rng.choice(["<", ">", ">=", "=="]), "a": v, "b": self.small(t, 1, 5), "ty": "u8"}
         x = rng.random()
         if x < 0.85:
             t = "u8"
@@ -414,7 +425,9 @@ class Gen:
                 tgt.clear()
                 tgt.update(typed_lit(inner) if inner["k"] == "lit" else
                            {"k": "cast", "t": t, "e": inner, "ty": t})
+            self.lvs.append((i, t))
             body, _ = self.block(ret, depth - 1, scope + [i], nest, False, loops + 1, set(prot) | {i})
+            self.lvs.pop()
             return [{"k": "range", "i": i, "lim": lim, "t": t, "start": start, "stop": stop, "step": step,
                      "b": body}]
         # counter-controlled loops: the counter is bumped first, so `continue` cannot starve it
@@ -431,14 +444,21 @@ class Gen:
             if rng.random() < 0.3:
                 extra = anchor(self.bool_expr(depth - 1, scope))
                 cond = {"k": "and", "a": cond, "b": fit(extra, 5, rng), "ty": "u8"}
+            if rng.random() < 0.12:
+                t64 = rng.choice(["i64", "u64"])       # a condition held in a 64-bit register
+                cond = {"k": "cast", "t": t64, "e": cond, "ty": t64}
+            self.lvs.append((c, t))
             body, _ = self.block(ret, depth - 1, sc2, nest, False, loops + 1, pr2)
+            self.lvs.pop()
             return [decl, {"k": "for", "c": cond, "b": [bump] + body}]
         guard = {"k": "cmp", "op": rng.choice([">", ">="]), "a": dict(cv), "b": self.small(t, 2, 7), "ty": "u8"}
         if rng.random() < 0.75:
             leave = [{"k": "break"}]
         else:
             leave = [{"k": "return", "e": self.top_expr(ret, depth - 1, sc2, None)}]
+        self.lvs.append((c, t))
         body, _ = self.block(ret, depth - 1, sc2, nest, False, loops + 1, pr2)
+        self.lvs.pop()
         return [decl, {"k": "loop", "b": [bump, {"k": "if", "c": guard, "th": leave, "el": None}] + body}]
 
     def block(self, ret, depth, scope, nest, must_return, loops=0, prot=()):
@@ -949,32 +969,64 @@ def model_dump(case, r):
     return coq_print(PID, COQ_IMPORTS, "Eval vm_compute in model_dump (%s)." % t)[-6000:]
 
 
+def explain_counts(pairs, chunk=60, jobs=8):
+    """one Coq pass over all evaluated cases: Mon_C19.explain per case and Mon_C19.run_counts"""
+    import concurrent.futures as cf
+    import re as _re
+    chunks = [pairs[k:k + chunk] for k in range(0, len(pairs), chunk)]
+
+    def one(ci):
+        ch = chunks[ci]
+        terms = [to_coq(c, r) for c, r in ch]
+        out = coq_print("%sx%d_%d" % (PID, os.getpid(), ci), COQ_IMPORTS,
+                        "Definition CS : list case_t := [%s].\n"
+                        "Definition E := Eval vm_compute in map explain CS.\nPrint E.\n"
+                        "Definition RC := Eval vm_compute in run_counts CS.\nPrint RC." % "; ".join(terms),
+                        timeout=900)
+        s = out.replace("\n", " ")
+        i = s.find("E = ")
+        j = s.find(" : list", i)
+        m = _re.search(r"RC\s*=\s*\((\d+)%N,\s*(\d+)%N\)", s)
+        if i < 0 or j < 0 or not m:
+            raise ValueError("cannot evaluate explain: " + out[-800:])
+        vals = parse_nested(s[i + 4:j])
+        if len(vals) != len(ch):
+            raise ValueError("explain: %d results for %d cases" % (len(vals), len(ch)))
+        return vals, int(m.group(1)), int(m.group(2))
+
+    ex, tot, unf = [], 0, 0
+    with cf.ThreadPoolExecutor(max_workers=jobs) as pool:
+        for vals, t, u in pool.map(one, range(len(chunks))):
+            ex += vals
+            tot += t
+            unf += u
+    for (c, r), v in zip(pairs, ex):
+        _explain_cache[vlib.chash([c["src"], c["args"]])] = v
+    return ex, tot, unf
+
+
 def extra(ctx):
-    """full-strength monitor on everything evaluated: every rejection must carry the signature of a
-    known divergence (otherwise it was already reported by the main phase); one representative
-    per signature goes through the known-findings protocol."""
+    """full-strength monitor on everything evaluated (one Coq pass): every rejection must carry the
+    signature of a known divergence (an unexplained one was already reported by the main phase);
+    one representative per signature goes through the known-findings protocol."""
     import check
     items = list(_seen.values())
     if not items:
         return
-    terms = [to_coq(case, r) for case, r in items]
-    G, VF, errs = vlib.coq_eval_cases(PID, COQ_IMPORTS, CASE_TYPE, terms, shard=SHARD,
-                                      mism="violations", viol="violations_full")
-    if errs:
-        ctx.notes.append("full-strength pass could not be evaluated: %s" % errs[0][:200])
-        return
-    guarded = set(G)
-    ctx.extra_cov["full_monitor_rejections"] = len(VF)
-    todo = [i for i in VF if i not in guarded]
     try:
-        ex = explain_batch([items[i] for i in todo])
+        ex, tot, unf = explain_counts(items)
     except Exception as exn:  # noqa
-        ctx.notes.append("explain failed: %r" % exn)
+        ctx.notes.append("full-strength pass could not be evaluated: %r" % exn)
         return
-    by_tag, counts, unexplained = {}, {}, []
-    for i, its in zip(todo, ex):
+    ctx.extra_cov["calls_compared_with_spec"] = tot
+    ctx.extra_cov["calls_outside_every_signature"] = unf
+    by_tag, counts, unexplained, rejected = {}, {}, [], 0
+    for i, its in enumerate(ex):
+        if not its:
+            continue
+        rejected += 1
         case, r = items[i]
-        if not its or any(not it for it in its):
+        if any(not it for it in its):
             unexplained.append(i)
             continue
         tg = set()
@@ -985,30 +1037,16 @@ def extra(ctx):
             cur = by_tag.get(t)
             if cur is None or len(items[cur][0]["src"]) > len(case["src"]):
                 by_tag[t] = i
-    try:
-        tot = unf = 0
-        for k in range(0, len(terms), 200):
-            out = coq_print(PID + "c%d" % os.getpid(), COQ_IMPORTS,
-                            "Definition RC := Eval vm_compute in run_counts [%s].\nPrint RC." % "; ".join(terms[k:k + 200]),
-                            timeout=900)
-            import re as _re
-            m = _re.search(r"RC\s*=\s*\((\d+)%N,\s*(\d+)%N\)", out.replace("\n", " "))
-            if m:
-                tot += int(m.group(1))
-                unf += int(m.group(2))
-        ctx.extra_cov["calls_compared_with_spec"] = tot
-        ctx.extra_cov["calls_outside_every_signature"] = unf
-    except Exception as exn:  # noqa
-        ctx.notes.append("run_counts failed: %r" % exn)
+    ctx.extra_cov["full_monitor_rejections"] = rejected
     ctx.extra_cov["cases_carrying_known_divergence"] = counts
-    ctx.extra_cov["cases_outside_every_signature"] = len(items) - len(VF)
-    for i in unexplained[:3]:
+    ctx.extra_cov["cases_outside_every_signature"] = len(items) - rejected
+    already = any(v.get("kind") == "V1" for v in ctx.violations)
+    for i in ([] if already else unexplained[:3]):
         case, r = items[i]
         check.report_case_violation(ctx, case, r, "full-strength monitor rejects the implementation's behaviour")
     for t, i in sorted(by_tag.items()):
         case, r = items[i]
-        one = dict(case)
-        check.report_case_violation(ctx, one, r, "known divergence " + t)
+        check.report_case_violation(ctx, dict(case), r, "known divergence " + t)
 
 
 RULE = ("typed-by-construction Arc functions (1-3 parameters over i8..u64,f32,f64; 0-4 statements + return; "
